@@ -239,13 +239,19 @@ def rule_r2(ctx):
     kinds = {"string": 0, "real": 0, "nlink": 0}
     nl_vars = {s_.targets[0].id for s_ in own_nodes(f.node) if isinstance(s_, ast.Assign) and isinstance(s_.targets[0], ast.Name)
                and isinstance(s_.value, ast.Attribute) and s_.value.attr == "st_nlink"}
+    bools: dict[str, ast.AST] = {}  # locals bound to a boolean expression: read through when a rejecting test names them
     for n in f.node.body:
         for s in ast.walk(n) if not isinstance(n, ast.If) else [n]:
             if isinstance(s, ast.Assign) and len(s.targets) == 1 and isinstance(s.targets[0], ast.Name):
                 env[s.targets[0].id] = _tags(s.value, env)
+                if isinstance(s.value, (ast.BoolOp, ast.Compare, ast.UnaryOp)) or (
+                        isinstance(s.value, ast.Call) and isinstance(s.value.func, ast.Attribute) and s.value.func.attr == "startswith"):
+                    bools[s.targets[0].id] = s.value
+                else:
+                    bools.pop(s.targets[0].id, None)
         if not isinstance(n, ast.If) or not any(isinstance(x, ast.Raise) for x in n.body):
             continue
-        test = n.test
+        test = _nnf(_read_through(n.test, bools))
         sw = [c for c in ast.walk(test) if isinstance(c, ast.Call) and isinstance(c.func, ast.Attribute) and c.func.attr == "startswith"]
         if sw:
             c = sw[0]
@@ -301,6 +307,44 @@ def rule_r2(ctx):
     cfg = CFG(f.node)
     raises = [n for n in own_nodes(f.node) if isinstance(n, ast.Raise)]
     ctx.check("R2", "at least three rejecting raises", len(raises) >= 3, f, f.node, "fewer than three raises", nontrivial=False)
+
+
+def _read_through(test: ast.AST, bools: dict) -> ast.AST:
+    """test with the boolean locals it names replaced by the expressions they were last bound to."""
+    from ..inline import clone
+
+    class R(ast.NodeTransformer):
+        def visit_Name(self, node):
+            if isinstance(node.ctx, ast.Load) and node.id in bools:
+                return self.visit(clone(bools[node.id]))
+            return node
+
+    return R().visit(clone(test))
+
+
+def _nnf(e: ast.AST) -> ast.AST:
+    """Negation normal form: `not (a or b)` -> `not a and not b`, `not (x == y)` -> `x != y`, `not not a` -> `a`."""
+    def neg(x):
+        if isinstance(x, ast.UnaryOp) and isinstance(x.op, ast.Not):
+            return pos(x.operand)
+        if isinstance(x, ast.BoolOp):
+            return ast.BoolOp(op=ast.And() if isinstance(x.op, ast.Or) else ast.Or(), values=[neg(v) for v in x.values])
+        if isinstance(x, ast.Compare) and len(x.ops) == 1:
+            flip = {ast.Eq: ast.NotEq, ast.NotEq: ast.Eq, ast.In: ast.NotIn, ast.NotIn: ast.In, ast.Is: ast.IsNot, ast.IsNot: ast.Is,
+                    ast.Lt: ast.GtE, ast.GtE: ast.Lt, ast.Gt: ast.LtE, ast.LtE: ast.Gt}
+            return ast.Compare(left=x.left, ops=[flip[type(x.ops[0])]()], comparators=x.comparators)
+        return ast.UnaryOp(op=ast.Not(), operand=x)
+
+    def pos(x):
+        if isinstance(x, ast.UnaryOp) and isinstance(x.op, ast.Not):
+            return neg(x.operand)
+        if isinstance(x, ast.BoolOp):
+            return ast.BoolOp(op=x.op, values=[pos(v) for v in x.values])
+        return x
+
+    out = pos(e)
+    ast.fix_missing_locations(out)
+    return out
 
 
 def _rejecting_shape(test: ast.AST, sw_call: ast.Call) -> bool:
